@@ -449,8 +449,20 @@ func (c *conn) removeClosed(id int64) {
 
 func (c *conn) notifyClosed() {
 	c.closedListeners.Range(func(_ int64, fn func()) bool {
-		fn()
+		c.notifyClosed1(fn)
 		return true
 	})
 	c.closedListeners.Clear()
+}
+
+// notifyClosed1 calls a listener, a panic in it must not keep the other listeners from being called.
+func (c *conn) notifyClosed1(fn func()) {
+	defer func() {
+		if e := recover(); e != nil {
+			st := status.Recover(e)
+			c.logger.ErrorStatus("Connection listener panic", st)
+		}
+	}()
+
+	fn()
 }
